@@ -285,6 +285,10 @@ where
         Err(e) => {
             // the tool may refuse a blob whose header is unreadable
             let header_gone = input_bytes.len() < BLOB_HEADER_LEN || matches!(dmg, Some(d) if d.class == Some(ByteClass::BlobHeader));
+            if header_gone && output.exists() && pearl::tools::validate_blob(&output).is_err() {
+                world.probe("tools_refused_blob_left_output");
+                ctx.violate(&["C16"], "recovery-left-invalid-output", "recovery_blob refused a blob with an unreadable header but left an output file that does not validate", format!("{}: output of {} bytes", desc, std::fs::metadata(&output).map(|m| m.len()).unwrap_or(0)));
+            }
             if !header_gone {
                 let meta_damage = matches!(dmg, Some(d) if d.class == Some(ByteClass::Meta));
                 let cause = if meta_damage {
